@@ -25,6 +25,10 @@ import (
 // ---- frame recording writer
 
 type frameWriter struct {
+	// slow: every Flush is slow - while it runs, all parked subgraph requests are
+	// answered and the released work gets the processor (the lock discipline of the
+	// resolver decides what it can do before the frame is committed)
+	slow      bool
 	buf       []byte
 	frames    []string
 	calls     []string
@@ -45,6 +49,9 @@ func (w *frameWriter) Write(p []byte) (int, error) {
 }
 func (w *frameWriter) Flush() error {
 	w.note("flush")
+	if w.slow {
+		fedorders.ReleaseParked(4000)
+	}
 	w.frames = append(w.frames, string(w.buf))
 	w.buf = nil
 	return nil
@@ -128,8 +135,10 @@ type obs struct {
 	err error
 }
 
-func exec(lab *fedlab.Lab, q string) obs {
-	w := &frameWriter{}
+func exec(lab *fedlab.Lab, q string) obs { return execWith(lab, q, false) }
+
+func execWith(lab *fedlab.Lab, q string, slowFlush bool) obs {
+	w := &frameWriter{slow: slowFlush}
 	lab.Sim.Reset()
 	err := lab.Engine.Execute(context.Background(), &graphql.Request{Query: q}, w)
 	return obs{w: w, err: err}
@@ -504,6 +513,11 @@ func TestCheck(t *testing.T) {
 						continue
 					}
 					execs, points, capped := fedorders.Explore(lab.Sim, maxOrders, func() any { return exec(lab, q) }, judge)
+					// once more on the default order with SLOW flushes: all deferred groups
+					// are released together and run concurrently while a frame is flushed
+					judge(fedorders.RunOne(lab.Sim, nil, func() any { return execWith(lab, q, true) }))
+					execs++
+					run.Count("slow_flush_executions", 1)
 					run.Eval(int64(execs))
 					run.AddStates(int64(points)+1, int64(points), int64(execs))
 					if capped {
